@@ -51,6 +51,30 @@ def run_session(exe, lines, timeout=900):
     return ans
 
 
+def own_regen(ck, files):
+    """Translator tie for the three gen files C20 owns (vlib.coq_regen recompiles every property's gen files: minutes). None if all
+    texts equal the committed snapshots, else (gen_dir, failed, log) after compiling ONLY these files in a scratch VerifGen directory."""
+    import os
+    import shutil
+    gen = os.path.join(vlib.COQ, "gen")
+    if all(os.path.exists(os.path.join(gen, n)) and open(os.path.join(gen, n)).read() == txt for n, txt in files.items()):
+        return None
+    wgen = os.path.join(ck.work, "gen")
+    shutil.rmtree(wgen, ignore_errors=True)
+    os.makedirs(wgen)
+    order = [n for n in ("X86RegTables.v", "InstNames.v", "InstNameTables.v") if n in files]
+    for n in order:
+        open(os.path.join(wgen, n), "w").write(files[n])
+    args = ["-Q", os.path.join(vlib.COQ, "theories"), "Verif", "-Q", wgen, "VerifGen", "-w", "-all"]
+    failed, log = [], ""
+    for n in order:
+        rc, out, err = vlib.sh(["coqc"] + args + [os.path.join(wgen, n)], cwd=wgen, timeout=600)
+        if rc != 0:
+            failed.append(n)
+            log += (out + err)[-2000:]
+    return wgen, failed, log
+
+
 def run(ck):
     rng = random.Random(ck.seed)
     impl = ck.build_harness("c20", ["c20_harness.cpp"])
@@ -65,12 +89,28 @@ def run(ck):
         tables = None
     else:
         tables = G.parse_dump(dl[0])
-        files = {"X86RegTables.v": G.gen_tables_v(tables),
+        dn = vlib.sh([impl], inp="DN 2\nDN 6\n", timeout=60)[1].split("\n")
+        files = {"InstNameTables.v": G.gen_name_tables_v(dn[0], dn[1], G.load_x86_aliases(vlib.REPO)),
+                 "X86RegTables.v": G.gen_tables_v(tables),
                  "InstNames.v": G.gen_names_v(G.load_inst_names(vlib.REPO), G.load_a64_inst_names(vlib.REPO))}
-        r = ck.coq_regen(files)
+        r = own_regen(ck, files)
         if r is not None:
             gen_dir, failed, log = r
             ck.notes.append("coq/gen regenerated from the working tree (differs from the committed snapshot); failed: %s" % failed)
+            if "InstNameTables.v" in failed:
+                # search with an independent python decoder: which id prints a name that is not the enum's
+                found = False
+                for arch, dump, names in ((2, dn[0], G.load_inst_names(vlib.REPO)), (6, dn[1], G.load_a64_inst_names(vlib.REPO))):
+                    idx, tab = G.parse_name_dump(dump)
+                    for i in sorted(names):
+                        got = G.py_decode_name(tab, idx[i])
+                        if got != names[i]:
+                            found = True
+                            ck.violation("C20/inst-name-table/arch%d/id%d" % (arch, i), "the instdb name table prints instruction id %d as %r; the InstId enum "
+                                         "calls it %r" % (i, got, names[i]), {"command": "X %d 0 %d %s 0 N 0" % (arch, i, names[i]), "impl": got})
+                if not found:
+                    ck.violation("C20/inst-name-tables", "regenerated coq/gen/InstNameTables.v no longer satisfies its lemmas (alias formatting?): %s" % log[-500:],
+                                 {"broken": "lemmas of coq/gen/InstNameTables.v"}, no_input=True)
             if "InstNames.v" in failed:
                 ck.violation("C20/inst-names", "the instruction-name lists of the InstId enums no longer satisfy names_check (a mnemonic that is a prefix "
                              "keyword / not an identifier, or two x86 ids with one name): %s" % log[-500:],
@@ -90,7 +130,7 @@ def run(ck):
         gen_dir = None     # the other theorems are still checked, against the committed snapshot of the tables
     obl = ck.coq_properties(gen_dir=gen_dir) if gen_dir else ck.coq_properties()
     ck.log("theorems: %d, failed: %d" % (len(obl), len([o for o in obl if not o["ok"]])))
-    mfail = ck.coq_make(["theories/Fmt/TextModel.vo", "theories/Fmt/X86FmtModel.vo", "theories/Fmt/X86InstModel.vo", "theories/Fmt/A64FmtModel.vo", "theories/Fmt/LogLine.vo", "theories/Fmt/LabelVirt.vo", "theories/Fmt/DataNode.vo"])
+    mfail = ck.coq_make(["theories/Fmt/TextModel.vo", "theories/Fmt/X86FmtModel.vo", "theories/Fmt/X86InstModel.vo", "theories/Fmt/A64FmtModel.vo", "theories/Fmt/LogLine.vo", "theories/Fmt/LabelVirt.vo", "theories/Fmt/DataNode.vo", "theories/Fmt/X86Explain.vo", "theories/Fmt/RegList.vo"])
     if mfail:
         raise RuntimeError("model theories do not compile: %s %s" % (mfail, getattr(ck, "coq_log", "")[-800:]))
     model = ck.ocaml_model("Extract_Fmt.v", ["zconv.ml", "c20_driver.ml"], name="c20")
@@ -99,6 +139,10 @@ def run(ck):
     # the FIXED behaviour (a64_mem_toks true); a tree that drops the operator again disagrees with model, proven parser and python
     # reader on concrete operands -> VIOLATION key C20/a64-mem-extend-dropped/<op>
     margs = ["--a64-fixed"]
+    # embedded-data node: "TotalSize=" without the repeat count (pinned; recorded finding, fixes/C20-embed-node-totalsize.patch) or with it
+    probe = vlib.sh([impl], inp="Z 0 - 0 D 4 3 2\n", timeout=60)[1].strip()
+    if probe.endswith("TotalSize=24}"):
+        margs.append("--embed-total-fixed")
 
     if ck.replay:
         rp = json.load(open(ck.replay))
@@ -179,6 +223,28 @@ def run(ck):
                              {"command": cmd, "impl": x, "model": y})
             elif k == "Y":
                 phase2.append((cmd, x, y, "P D | %s" % x[2:]))
+            elif k == "Z" and cmd.split()[4] == "D":
+                # independent judgement: the node emits size*count*repeat bytes; "TotalSize" must say so
+                size, count, rep = (int(v) for v in cmd.split()[5:8])
+                m = re.search(r"TotalSize=(\d+)\}", x)
+                if not m or int(m.group(1)) != size * count * rep:
+                    ck.violation("C20/embed-node-totalsize", "format_node prints %r for an embedded-data node of %d x %d bytes repeated %d times (%d bytes are emitted)"
+                                 % (x[2:], count, size, rep, size * count * rep), {"command": cmd, "impl": x})
+        if cmd.startswith("RL "):
+            nontrivial.add(x)
+            if x != y:
+                ck.violation("C20/reglist/%s" % re.sub(r"\s+", "_", cmd), "register list text differs from the model: %r impl %r model %r" % (cmd, x, y),
+                             {"command": cmd, "impl": x, "model": y})
+            elif cmd.split()[1] == "5":
+                phase2.append((cmd, x, y, "P RL | %s" % x[3:]))
+            continue
+        if k in "KJQ" or cmd.startswith("W6 "):
+            nontrivial.add(x)
+            if x != y:
+                ck.violation("C20/compiler-text/%s" % re.sub(r"\s+", "_", cmd)[:140],
+                             "Compiler-side text (virtual registers / home operand / FuncRet) differs from the model: %r impl %r model %r" % (cmd, x, y),
+                             {"command": cmd, "impl": x, "model": y})
+            continue
         if k in "WBU":
             nontrivial.add(x)
             if x != y:
@@ -192,7 +258,14 @@ def run(ck):
                 phase2.append((cmd, x, y, "P B %s %s | %s" % (cmd.split()[1], cmd.split()[6], x[2:])))
         if k in "OX":
             f = cmd.split(" ", 3)
-            phase2.append((cmd, x, y, "P %s %s %s | %s" % (k, f[1], f[3], x[2:])))
+            xt = x[2:]
+            if k == "X" and int(cmd.split()[2]) & 16:
+                xt = G.strip_explanations(xt)        # the {…} behind immediates is compared with the model, not parsed
+                if x != y and xt == G.strip_explanations(y[2:]):
+                    ck.violation("C20/explain/%s/%s" % (cmd.split()[4], re.sub(r"\s+", "_", " ".join(cmd.split()[5:]))[:100]),
+                                 "kExplainImms: AsmJit explains the immediate as %r, the model (SDM names, FormatterInternal_explain_const transliterated) as %r "
+                                 "for %r" % (x[2:], y[2:], cmd), {"command": cmd, "impl": x, "model": y})
+            phase2.append((cmd, x if xt == x[2:] else x[:2] + xt, y if xt == x[2:] else y[:2] + G.strip_explanations(y[2:]), "P %s %s %s | %s" % (k, f[1], f[3], xt)))
 
     # E: the assembler sets InstOptions::kX86_Rex itself (FIXUP_GPB) when spl/bpl/sil/dil/r8b.. are encoded, and logs the modified
     # options: for such operands the line may carry "rex " although the caller did not ask for it (same bytes, modelled as is)
@@ -347,6 +420,13 @@ def run(ck):
     unsupported = {}
     for (cmd, x, y, pc), a in zip(phase2, p2):
         k = pc[0]
+        if k == "P" and cmd.startswith("RL "):
+            if a == "P %d" % int(cmd.split()[3]):
+                parsed_ok += 1
+            else:
+                ck.violation("C20/reglist-parse/%s" % re.sub(r"\s+", "_", cmd), "the register list %r printed for mask %s reads back as %s" % (x[3:], cmd.split()[3], a),
+                             {"command": cmd, "impl": x})
+            continue
         if k == "P" and cmd[0] == "Y":
             if a == G.data_expect(cmd):
                 parsed_ok += 1
